@@ -131,3 +131,73 @@ package doif
 //@     pure
 //@     set gres := r
 //@     set ncmp := ncmp + 1
+
+// byte_len_cmp measures the encoded size of a container: n elements need n-1 commas,
+// none when the container is empty (`[]` and `{}` are 2 bytes, not 1).
+
+//@ func getNodeFieldsBytesSize
+//@   ghost nf int = 0
+//@   ensures nf == 0 ==> result == 0
+//@   loop 1 invariant size >= 0 && nf == len(fields) && (len(fields) == 0 ==> size == 0)
+//@   callee AsFields() (f)
+//@     pure
+//@     set nf := len(f)
+//@   callee AsString() (s)
+//@     pure
+//@   callee AsFieldValue() (v)
+//@     pure
+//@   callee getNodeBytesSize(n) (r)
+//@     pure
+//@     ensures r >= 0
+
+//@ func getNodeBytesSize
+//@   ghost isarr bool = false
+//@   ghost narr int = 0
+//@   ensures result >= 0
+//@   ensures isarr && narr == 0 ==> result == 2
+//@   loop 1 invariant size >= 0 && narr == len(nodeArr) && isarr && (len(nodeArr) == 0 ==> size == 0)
+//@   callee IsArray() (r)
+//@     pure
+//@     set isarr := r
+//@   callee IsObject() (r)
+//@     pure
+//@   callee IsString() (r)
+//@     pure
+//@   callee TypeStr() (s)
+//@     pure
+//@   callee AsArray() (a)
+//@     pure
+//@     set narr := len(a)
+//@   callee AsString() (s)
+//@     pure
+//@   callee AsEscapedString() (s)
+//@     pure
+//@   callee getNodeFieldsBytesSize(n) (r)
+//@     pure
+//@     ensures r >= 0
+
+// ts_cmp: a time outside the range UnixNano can represent (years 1678..2261) is
+// compared as the smallest / largest value, not as the wrapped-around number.
+
+//@ func (*tsCmpOpNode).Check
+//@   option allow-panic yes
+//@   ghost gy int = 0
+//@   callee Year() (y)
+//@     pure
+//@     set gy := y
+//@   callee compare(a, b) (r)
+//@     requires gy < 1678 ==> a == -9223372036854775808
+//@     requires gy > 2261 ==> a == 9223372036854775807
+//@     pure
+//@   callee ParseTime(f, s) (t, err)
+//@     pure
+//@   callee Dig(p) (n)
+//@     pure
+//@   callee AsString() (s)
+//@     pure
+//@   callee UnixNano() (v)
+//@     pure
+//@   callee Load() (v)
+//@     pure
+//@   callee Nanoseconds() (v)
+//@     pure
